@@ -293,7 +293,7 @@ def build_and_run_twin(unit, chk, inputs, workdir, native_slices=None, obligatio
         fl.append('-I' + workdir)
     fn = chk.get('enforce')
     contract = unit.file(unit.spec.get('contract', 'contract.c'))
-    defs = ['-D' + d for d in unit.spec.get('defines', [])]
+    defs = ['-D' + d for d in vp.unit_defines(unit)]
     # preprocessed contract text (CBMC view: clauses present)
     rc, pre, err, _ = vp.sh(['gcc', '-E', '-P', '-DVP_CBMC'] + defs + [x for x in fl if x.startswith('-I')] + [contract])
     if rc != 0:
@@ -333,6 +333,10 @@ def build_and_run_twin(unit, chk, inputs, workdir, native_slices=None, obligatio
     if unit.spec.get('wrap', 'wrap.cpp'):
         cxx.append(unit.file(unit.spec.get('wrap', 'wrap.cpp')))
     cxx += [unit.file(f) for f in unit.spec.get('native_extra', [])]
+    for sp in unit.spec.get('sources', []):
+        for ap in sp.get('append', []):
+            if unit.file(ap) not in cxx:
+                cxx.append(unit.file(ap))
     for i, f in enumerate(cxx):
         o = os.path.join(workdir, 'n%d.o' % i)
         rc, out, err, _ = vp.sh(['g++', '-std=gnu++14', '-Dprivate=public', '-Dprotected=public', '-I' + unit.dir] + fl + defs + ['-c', f, '-o', o])
